@@ -595,9 +595,9 @@ impl<M: ConvexCellMarker + 'static> ConvexCell<M> {
         // Compute integral from decomposition of convex cell
         let mut integrator = I::init_with_data(self, extra_data);
         for tet in self.decompose() {
-            integrator.collect(tet.vertices[0], tet.vertices[1], tet.vertices[2], self.loc);
+            integrator.collect_with_data(tet.vertices[0], tet.vertices[1], tet.vertices[2], self.loc);
         }
-        integrator.finalize()
+        integrator.finalize_with_data()
     }
 
     fn clipping_plane_has_valid_dimensionality(&self, plane_idx: usize) -> bool {
